@@ -66,7 +66,7 @@ def match_known(known, sig):
     """an open finding matches iff every key of its 'match' equals the signature's value"""
     for k in known:
         m = k["match"]
-        if all(sig.get(a) == b for a, b in m.items()):
+        if all((sig.get(a) in b) if isinstance(b, list) else (sig.get(a) == b) for a, b in m.items()):
             return k
     return None
 
